@@ -73,6 +73,7 @@ PROP = {  # subject keyword -> (property, failing input)
  'approx_totals with negative design variable indices': ('C01', "model.approx_totals('fd'), d.z size 2 with desvar indices=[-1], yb = diag(-3,2) z: d yb[1]/dz[-1] = 0 instead of 2"),
  'load_case sets automatic sources, sub-group cases and cases with discrete variables': ('C19', "c: y = 2*x, x in cm promoted, set_input_defaults('x', units='m'), x = 5 m: after load_case get_val('x', units='m') = 0.05 (recorded 5), rerun y = 10 (recorded 1000); src_indices=[0,2] into a size-4 source: ValueError shape (4,) does not match (2,); sub-group-only recorder: top-level y overwritten from g.c.y; discrete variables: promoted inputs not loaded"),
  'system and solver cases record physical values': ('C19', "add_output('y', ref=100), x = 5: a system / solver case holds c.y = 0.1 (problem / driver case: 10); load_case restores 0.1, rerun gives 10"),
+ 'BalanceComp partials use elementwise normalization for multi-dimensional balances': ('C26', "BalanceComp.add_balance('y', val=ones((2,3)), normalize=True), rhs=[[0.5,3,1],[4,0.25,5]]: declared d resid/d lhs = [[0.941,0.308,0.8],[0.2,0.985,0.138]], exact [[0.941,0.333,0.8],[0.25,0.985,0.2]] (row-wise instead of elementwise |rhs| < 2 branch)"),
  'func components with a single scalar output and a forward jax coloring': ('C34', "ExplicitFuncComp / ImplicitFuncComp with one output of shape () and a forward jax coloring: IndexError 'tuple index out of range'"),
  'check_partials works on private copies': ('C13', "check_partials(method='fd', step=[0.5, 0.25]) on a dense partial: J_fd[0] is J_fd[1] (last step's values); constant val= partials overwritten by the approximation (second check reports zero error, compute_totals returns 2 instead of 5)"),
  'InterpND.gradient returns the derivative at the point': ('C16', 'akima 2-D table: interpolate(x); gradient(x) returns np.empty garbage for sub-dimensions ([[-2.127, 0.]] instead of [[-2.127, -2.983]]); gradient(x) after an in-place change of x returns the old gradient'),
